@@ -21,6 +21,8 @@ BOX = range(-2, 5)
 
 # ---------------------------------------------------------------------------------------------
 # operand terms:  ("cmp", key, op, c, flipped) | ("var", i) | ("const", b) | ("not", o) | ("bool", isand, [..])
+#                 | ("chain", t0, [(op, t), (op, t), ..])   a chained comparison with TWO OR MORE operators;
+#                   a term t is ("k", key) or ("c", int)      (`0 < x <= 9` = ("chain", ("c", 0), [("BLt", ("k", 0)), ("BLe", ("c", 9))]))
 
 
 def o_text(o, top=False) -> str:
@@ -37,7 +39,22 @@ def o_text(o, top=False) -> str:
     if k == "bool":
         s = (" and " if o[1] else " or ").join(o_text(v) for v in o[2])
         return s if top else f"({s})"
+    if k == "chain":
+        assert len(o[2]) >= 2, o       # one operator is a "cmp": the rule reads bounds from those
+        return t_text(o[1]) + "".join(f" {BOP_TXT[op]} {t_text(t)}" for op, t in o[2])
     raise ValueError(o)
+
+
+def t_text(t) -> str:
+    return KEYS[t[1]] if t[0] == "k" else str(t[1])
+
+
+def t_coq(t) -> str:
+    return f"(TKey {t[1]})" if t[0] == "k" else f"(TLit {gz(t[1])})"
+
+
+def o_has_chain(o) -> bool:
+    return o[0] == "chain" or (o[0] == "not" and o_has_chain(o[1])) or (o[0] == "bool" and any(o_has_chain(v) for v in o[2]))
 
 
 def o_coq(o) -> str:
@@ -50,6 +67,8 @@ def o_coq(o) -> str:
         return f"(OConst {gbool(o[1])})"
     if k == "not":
         return f"(ONot {o_coq(o[1])})"
+    if k == "chain":
+        return f"(OChain {t_coq(o[1])} {glist(o[2], lambda l: f'({l[0]}, {t_coq(l[1])})')})"
     return f"(OBool {gbool(o[1])} {glist(o[2], o_coq)})"
 
 
@@ -155,8 +174,19 @@ def all_cmps(keys=(0,), consts=(0, 1, 2), flips=(False, True)):
     return [("cmp", k, op, c, fl) for k in keys for op in BOPS for c in consts for fl in flips]
 
 
+def rand_chain(rnd):
+    """a random chained comparison with 2 or 3 operators over x, y and small constants"""
+    n = rnd.choice([2, 2, 2, 3])
+    terms = [rnd.choice([("k", 0), ("k", 0), ("k", 1), ("c", rnd.choice([-1, 0, 1, 2, 3]))]) for _ in range(n + 1)]
+    if all(t[0] == "c" for t in terms):
+        terms[rnd.randrange(n + 1)] = ("k", 0)
+    return ("chain", terms[0], [(rnd.choice(BOPS), t) for t in terms[1:]])
+
+
 def rand_operand(rnd, depth=0):
     r = rnd.random()
+    if r < 0.10:
+        return rand_chain(rnd)
     if r < 0.62 or depth >= 2:
         return ("cmp", rnd.choice([0, 0, 0, 1]), rnd.choice(BOPS), rnd.choice([-1, 0, 1, 2, 3]), rnd.random() < 0.25)
     if r < 0.74:
@@ -170,11 +200,11 @@ def rand_operand(rnd, depth=0):
 
 def bound_cases(tier, rnd):
     cs = all_cmps()
-    cases = []
+    cases = chain_cases(tier, rnd)
     for a, b in itertools.product(cs, cs):
         for isand in (True, False):
             cases.append((isand, [a, b]))
-    n_pairs = len(cases)
+    n_pairs = len(cs) * len(cs) * 2
     plain = all_cmps(flips=(False,))
     triples = [(isand, [a, b, c]) for a, b, c in itertools.product(plain, repeat=3) for isand in (True, False)]
     if tier == "quick":
@@ -190,6 +220,74 @@ def bound_cases(tier, rnd):
             if tier != "quick" or rnd.random() < 0.15:
                 cases.append((isand, [("bool", isand, [a, ("var", 0)]), b, ("var", 1)]))
     return cases, n_pairs
+
+
+# ---- chained comparisons as operands (round 5, seed C17-d) -----------------------------------
+CHAIN_WITNESS = (False, [("chain", ("c", 0), [("BLt", ("k", 0)), ("BLt", ("c", 2))]), ("cmp", 1, "BGt", 3, False)])
+
+
+def chain_pool():
+    """deterministic pool of chained comparisons: `c1 op1 x op2 c2` for EVERY ordered pair of the six operators
+    (constants in increasing order; for the order-sensitive pairs also decreasing and equal constants, so every order
+    relation between the two bounds occurs), chains that mention a second variable, and chains with three operators"""
+    X, Y = ("k", 0), ("k", 1)
+    c = lambda n: ("c", n)      # noqa
+    pool = [("chain", c(0), [(o1, X), (o2, c(2))]) for o1 in BOPS for o2 in BOPS]
+    for o1, o2 in (("BLt", "BLt"), ("BLe", "BLe"), ("BLt", "BLe"), ("BGt", "BGt"), ("BGe", "BGt"), ("BEq", "BLt"),
+                   ("BNe", "BLt"), ("BGt", "BLt"), ("BLt", "BGt"), ("BGe", "BLe")):
+        pool.append(("chain", c(2), [(o1, X), (o2, c(0))]))
+        pool.append(("chain", c(1), [(o1, X), (o2, c(1))]))
+    pool += [("chain", X, [("BLt", Y), ("BLt", c(2))]), ("chain", c(0), [("BLe", X), ("BLt", Y)]),
+             ("chain", X, [("BLt", c(1)), ("BLe", Y)]), ("chain", X, [("BEq", Y), ("BGt", c(0))]),
+             ("chain", Y, [("BGt", X), ("BGe", c(1))]), ("chain", X, [("BNe", Y), ("BNe", c(1))]),
+             ("chain", X, [("BGt", c(0)), ("BLt", c(2))]), ("chain", X, [("BLt", c(2)), ("BGt", c(0))]),
+             # three operators
+             ("chain", c(0), [("BLt", X), ("BLt", Y), ("BLe", c(2))]), ("chain", c(0), [("BLe", X), ("BLe", c(1)), ("BLe", Y)]),
+             ("chain", c(2), [("BGt", X), ("BGe", c(0)), ("BEq", Y)]), ("chain", X, [("BLt", Y), ("BLt", c(2)), ("BGt", c(0))]),
+             ("chain", c(-1), [("BLt", X), ("BNe", c(1)), ("BLt", c(3))]), ("chain", c(0), [("BEq", X), ("BEq", Y), ("BEq", c(0))])]
+    return pool
+
+
+def chain_cases(tier, rnd):
+    """(isand, operands) with chained comparisons among the operands: the minimal witness of seed C17-d first, then
+    every chain of the pool x partner (a bound on the same variable, on another variable, a bare name) in both orders
+    under and / or; with a second partner; opposite / identical / constant operands; under `not`; nested in
+    same-operator and other-operator BoolOps; chain next to chain.  Deterministic (seed independent)."""
+    pool = chain_pool()
+    core_partners = [("cmp", 0, "BGt", 1, False), ("cmp", 0, "BLe", 0, False), ("cmp", 0, "BEq", 1, True),
+                     ("cmp", 1, "BGt", 3, False), ("var", 0)]
+    more_partners = [p for p in all_cmps(flips=(False,)) + [("cmp", 1, op, 1, False) for op in BOPS] if p not in core_partners]
+    cases = [CHAIN_WITNESS]
+    for ch in pool:
+        for isand in (True, False):
+            for p in core_partners:
+                cases.append((isand, [ch, p]))
+                cases.append((isand, [p, ch]))
+            cases.append((isand, [ch, ("not", ch)]))
+            cases.append((isand, [ch, ch]))
+            cases.append((isand, [ch, ("const", isand)]))
+            cases.append((isand, [("not", ch), ("cmp", 0, "BGt", 1, False)]))
+            cases.append((isand, [("not", ch), ("cmp", 0, "BGt", 1, False), ("cmp", 0, "BGt", 0, False)]))
+    k = 0
+    for ch in pool:
+        for p in more_partners:
+            for isand in (True, False):
+                k += 1
+                if tier != "quick" or k % 5 == 0:
+                    cases.append((isand, [ch, p] if k % 2 else [p, ch]))
+    sub = pool[::3]
+    for i, ch in enumerate(sub):
+        a, b = core_partners[i % 4], core_partners[(i + 1) % 4]
+        for isand in (True, False):
+            cases.append((isand, [ch, a, b]))
+            cases.append((isand, [a, ch, b, ("var", 1)]))
+            cases.append((isand, [("bool", isand, [ch, a]), b]))                    # flattened by the rule
+            cases.append((isand, [a, ("bool", isand, [b, ("bool", isand, [ch, ("var", 0)])])]))
+            cases.append((isand, [("bool", not isand, [ch, a]), b]))                # other operator: opaque
+            cases.append((isand, [("not", ("bool", not isand, [ch, a])), b, a]))
+            cases.append((isand, [ch, sub[(i + 1) % len(sub)]]))
+            cases.append((isand, [ch, sub[(i + 5) % len(sub)], a]))
+    return cases
 
 
 # ---- negate --------------------------------------------------------------------------------
@@ -750,6 +848,8 @@ def check_range(run, mods, rnd, wd, hist, distinct):
 # ---- simplify_boolean_expressions_symmath: translation validation ---------------------------------
 # formula terms: ("name", v) | ("cmp", v, op, c, flipped) | ("opq", i) | ("const", b) | ("not", f)
 #                | ("and", [f..]) | ("or", [f..])         (v indexes SVARS, op is a key of BOP_TXT)
+#                | ("chain", v, op1, c1, op2, c2)         the chained comparison `c1 op1 v op2 c2`: ONE atom to the rule
+#                  (its text), the conjunction `c1 op1 v and v op2 c2` of two boolean atoms to the checker (sf_coq)
 SVARS = ["x", "y", "z"]
 SBOX = range(-3, 6)          # strictly contains every constant used below ([-1, 3])
 
@@ -763,10 +863,13 @@ def sf_text(f, top=True) -> str:
         return f"{c} {BOP_TXT[op]} {SVARS[v]}" if fl else f"{SVARS[v]} {BOP_TXT[op]} {c}"
     if k == "opq":
         return f"o{f[1]}()"
+    if k == "chain":
+        _, v, o1, c1, o2, c2 = f
+        return f"{c1} {BOP_TXT[o1]} {SVARS[v]} {BOP_TXT[o2]} {c2}"
     if k == "const":
         return "True" if f[1] else "False"
     if k == "not":
-        return f"not {sf_text(f[1], False)}"
+        return f"not {sf_text(f[1], False)}" if f[1][0] != "chain" else f"not ({sf_text(f[1])})"
     s = f" {k} ".join(sf_text(v, False) for v in f[1])
     return s if top else f"({s})"
 
@@ -779,6 +882,9 @@ def sf_coq(f) -> str:
         return f"(PAtom (ACmp {f[1]} {f[2]} {gz(f[3])} {gbool(f[4])}))"
     if k == "opq":
         return f"(PAtom (AOpq {f[1]}))"
+    if k == "chain":
+        _, v, o1, c1, o2, c2 = f
+        return f"(PAnd (PAtom (ACmp {v} {o1} {gz(c1)} true)) (PAtom (ACmp {v} {o2} {gz(c2)} false)))"
     if k == "const":
         return f"(PConst {gbool(f[1])})"
     if k == "not":
@@ -822,6 +928,10 @@ def sf_of_ast(n) -> tuple:
             return ("cmp", SVARS.index(l.id), _AST_BOP[type(n.ops[0])], _int_const(r), False)
         if isinstance(r, ast.Name) and r.id in SVARS and _int_const(l) is not None:
             return ("cmp", SVARS.index(r.id), _AST_BOP[type(n.ops[0])], _int_const(l), True)
+    if isinstance(n, ast.Compare) and len(n.ops) == 2 and all(type(o) in _AST_BOP for o in n.ops):
+        l, m, r = n.left, n.comparators[0], n.comparators[1]
+        if isinstance(m, ast.Name) and m.id in SVARS and _int_const(l) is not None and _int_const(r) is not None:
+            return ("chain", SVARS.index(m.id), _AST_BOP[type(n.ops[0])], _int_const(l), _AST_BOP[type(n.ops[1])], _int_const(r))
     raise ValueError("outside the formula language: " + ast.dump(n))
 
 
@@ -861,7 +971,7 @@ SYM_SHAPES = {          # how the formula is embedded; True = only its truth val
 def sf_vars_used(f, acc=None):
     """(variables compared with constants, variables used as bare operands, opaque calls)"""
     acc = acc if acc is not None else (set(), set(), set())
-    if f[0] == "cmp":
+    if f[0] in ("cmp", "chain"):
         acc[0].add(f[1])
     elif f[0] == "name":
         acc[1].add(f[1])
@@ -918,6 +1028,8 @@ SYM_POOLS = {
     "names": [("name", 0), ("name", 1), ("name", 2)],
     "cmps": [("cmp", 0, "BGt", 1, False), ("cmp", 0, "BLe", 1, False), ("cmp", 0, "BEq", 2, False)],
     "mixed": [("name", 0), ("cmp", 0, "BGt", 0, False), ("opq", 0)],
+    # round 5: chained comparisons are atoms of the rule, related to the bounds on the same variable only semantically
+    "chains": [("chain", 0, "BLt", 0, "BLt", 3), ("cmp", 0, "BGt", 1, False), ("chain", 0, "BLe", 1, "BLe", 2)],
 }
 
 
@@ -925,8 +1037,10 @@ def sym_atom(rnd):
     k = rnd.random()
     if k < 0.35:
         return ("name", rnd.randrange(3))
-    if k < 0.8:
+    if k < 0.72:
         return ("cmp", rnd.choice([0, 0, 1]), rnd.choice(BOPS), rnd.choice([-1, 0, 1, 2, 3]), rnd.random() < 0.2)
+    if k < 0.8:
+        return ("chain", rnd.choice([0, 0, 1]), rnd.choice(BOPS), rnd.choice([-1, 0, 1]), rnd.choice(BOPS), rnd.choice([1, 2, 3]))
     if k < 0.93:
         return ("opq", rnd.randrange(2))
     return ("const", rnd.random() < 0.5)
@@ -949,11 +1063,11 @@ def sym_cases(tier, rnd):
     k = 0
     for pool, atoms in SYM_POOLS.items():
         shapes = {"names": ["if", "if", "not", "assign"], "cmps": ["assign", "if", "return", "ifexp"],
-                  "mixed": ["if", "assign", "comp", "call"]}[pool]
-        for n in (2, 3, 4):
+                  "mixed": ["if", "assign", "comp", "call"], "chains": ["if", "assign", "not", "return"]}[pool]
+        for n in ((2, 3, 4) if pool != "chains" or tier != "quick" else (2, 3)):
             for f in sym_leaf_forms(n, atoms):
                 k += 1
-                if n < 4 or k % stride4 == 0:
+                if n < 4 or k % (stride4 if pool != "chains" else 4) == 0:
                     cases.append((f, shapes[k % len(shapes)]))
     n_exh = len(cases)
     shapes = sorted(SYM_SHAPES)
@@ -1470,6 +1584,8 @@ def check(run: common.Run):
                 res, source = ("crash", type(e).__name__), bound_source(isand, vs, ctx)
             items.append((isand, vs, res, source, ctx))
             hist["bound:" + res[0] + (":truth-ctx" if ctx else ":value-ctx")] += 1
+            if any(o_has_chain(v) for v in vs):
+                hist["bound:with-chain:" + res[0]] += 1
             if res[0] != "none":
                 distinct.add(source)
     files, shards = [], []
@@ -1623,7 +1739,9 @@ def check(run: common.Run):
     failures = []
     seen_src = set()
     for (isand, vs, res, source, _ctx) in items:
-        if source in seen_src or res[0] in ("none",):
+        # formulas with a chained comparison always go through the oracle: a rewrite of a NESTED and/or (under `not`,
+        # in an operand of the other operator) is not a yield for the top node
+        if source in seen_src or (res[0] == "none" and not any(o_has_chain(v) for v in vs)):
             continue
         seen_src.add(source)
         pf = property_fails(mods, source, rule)
